@@ -145,6 +145,15 @@ class Builder(Client):
         return {"op": "lib_gate", "name": name, "args": args, "out": out}
 
     def primitive(self, cid):
+        o = self._primitive(cid)
+        if o is not None and self.rng.random() < self.cfg.get("p_numpy", 0.06) / 2:
+            # mode numbers as numpy integers (legal wherever an int is)
+            for f in ("m", "m1", "m2"):   # (herald modes given as numpy integers are accepted by Circuit.herald but rejected at compile time: not generated)
+                if isinstance(o.get(f), int) and not isinstance(o.get(f), bool):
+                    o[f] = {"np": "int64", "v": o[f]}
+        return o
+
+    def _primitive(self, cid):
         r, w = self.rng, self.w
         c = w.pool["c"][cid]
         nu = n_user(c)
